@@ -1,7 +1,8 @@
 import MosnVerif.Lemmas.ConfigCodec
+import MosnVerif.Lemmas.GoDuration
 /-! Fixpoint laws of the custom (Un)MarshalJSON pairs (C19). -/
 namespace MosnVerif.Model.ConfigCodec
-open MosnVerif.Model
+open MosnVerif.Model MosnVerif.Model.GoDuration
 
 theorem fc_keysOK (tls filter : Shape) (h1 : keysOK tls = true) (h2 : keysOK filter = true) (h3 : ptrElemOK tls = true) :
     keysOK (fcShape tls filter) = true := by
@@ -240,8 +241,15 @@ theorem retry_readback (x : RetryV) (hd : durU (.str (fmtDur x.timeout)) = some 
     simp [retryU, retryM, lookupLast, hn, hd, f1, f2, f3, f4, f5, f6, f7, f8, f9, g1, g2, g3, decode, codesShape,
       decodeL_nums, decodeL] <;> exact filterMap_nums' _
 
-/-- **RetryPolicy** (partial: under `DurLaw`). Full statement: the same without the hypothesis, i.e. with
-`time.ParseDuration (d.String()) = d` proved for the digit-level model of package time. -/
+/-- `DurLaw` holds: what `ParseDuration` returns is an int64, and every int64 is read back from its `String()` -/
+theorem durLaw : DurLaw := by
+  intro j d h
+  have hr : -(two63 : Int) ≤ d ∧ d < (two63 : Int) := by
+    cases j <;> simp [durU, parseDur] at h <;> exact parseChars_range _ d h
+  simp only [durU]
+  exact parseDur_fmtDur d hr.1 hr.2
+
+/-- **RetryPolicy**: the fixpoint law, under `DurLaw` (discharged by `durLaw`) -/
 theorem retry_fixpoint_partial (hlaw : DurLaw) (w : Json) (x : RetryV) (hU : retryU w = some x) :
     ∃ y, retryU (retryM x) = some y ∧ retryM y = retryM x := by
   -- the timeout of x was produced by durU (or is 0)
@@ -264,5 +272,9 @@ theorem retry_fixpoint_partial (hlaw : DurLaw) (w : Json) (x : RetryV) (hU : ret
     · simp at hU
   refine ⟨_, retry_readback x hd, ?_⟩
   simp [retryM]
+
+/-- **RetryPolicy**: the fixpoint law, unconditionally -/
+theorem retry_fixpoint (w : Json) (x : RetryV) (hU : retryU w = some x) :
+    ∃ y, retryU (retryM x) = some y ∧ retryM y = retryM x := retry_fixpoint_partial durLaw w x hU
 
 end MosnVerif.Model.ConfigCodec
